@@ -94,13 +94,20 @@ struct Scn {
     stagger: bool,
     /// HTTP/1.1 client: all requests of the sequence in one write
     pipeline: bool,
+    /// H2 senders end a body with a separate empty DATA frame carrying END_STREAM
+    sep_end: bool,
+    /// even exchanges are GETs with the response size, odd exchanges uploads with a 100-byte answer
+    mix: bool,
     /// h2c backend: hold its SETTINGS back for this long after reading the preface (legal, RFC 9113 sets no deadline)
     bset_delay_ms: u64,
 }
 
 impl Scn {
     fn req_len(&self, i: usize) -> usize {
-        if self.req_fr == "none" || self.req_fr == "head" { 0 } else { self.req_size + i * self.step }
+        if !self.has_req_body(i) { 0 } else { self.req_size + i * self.step }
+    }
+    fn has_req_body(&self, i: usize) -> bool {
+        self.req_fr != "none" && self.req_fr != "head" && (!self.mix || i % 2 == 1)
     }
     /// body bytes the client must receive (HEAD, 204 and 304 answers carry none)
     fn resp_len(&self, i: usize) -> usize {
@@ -108,7 +115,7 @@ impl Scn {
     }
     /// the length a HEAD answer declares without sending it
     fn declared_resp_len(&self, i: usize) -> usize {
-        self.resp_size + i * self.step
+        if self.mix && i % 2 == 1 { 100 } else { self.resp_size + i * self.step }
     }
     fn bodyless(&self) -> bool {
         matches!(self.resp_fr.as_str(), "head" | "s204" | "s304")
@@ -138,10 +145,10 @@ impl Scn {
     }
     fn shape(&self) -> String {
         format!(
-            "pair={}->{} n={} req={}:{} resp={}:{} step={} chunk={} pad={} cfrag={} cpause={} bfrag={} bpause={} sockbuf={} win={} abort={} bufsz={} stagger={} bset_delay_ms={}",
+            "pair={}->{} n={} req={}:{} resp={}:{} step={} chunk={} pad={} cfrag={} cpause={} bfrag={} bpause={} sockbuf={} win={} abort={} bufsz={} stagger={} bset_delay_ms={} sep_end={} mix={}",
             if self.front_h2 { "h2" } else { "h1" }, if self.back_h2 { "h2" } else { "h1" }, self.n, self.req_fr, self.req_size,
             self.resp_fr, self.resp_size, self.step, self.chunk, self.pad, self.cfrag, self.cpause, self.bfrag, self.bpause,
-            self.sockbuf, self.win, self.abort, self.bufsz, if self.pipeline { 2 } else { self.stagger as u8 }, self.bset_delay_ms
+            self.sockbuf, self.win, self.abort, self.bufsz, if self.pipeline { 2 } else { self.stagger as u8 }, self.bset_delay_ms, self.sep_end as u8, self.mix as u8
         )
     }
 }
@@ -754,11 +761,13 @@ struct H2Tx {
     rr: usize,
     /// streams whose body is followed by a trailer HEADERS frame carrying END_STREAM
     trailers: Vec<u32>,
+    /// END_STREAM never rides on a DATA frame that carries payload: a separate empty DATA frame ends the body
+    sep_end: bool,
 }
 
 impl H2Tx {
     fn new(unit: usize, pad: usize) -> H2Tx {
-        H2Tx { conn_win: 65535, init_win: 65535, max_frame: 16384, streams: vec![], cyc: sizes_cycle(unit), k: 0, pad, rr: 0, trailers: vec![] }
+        H2Tx { conn_win: 65535, init_win: 65535, max_frame: 16384, streams: vec![], cyc: sizes_cycle(unit), k: 0, pad, rr: 0, trailers: vec![], sep_end: false }
     }
     fn open(&mut self, sid: u32, body: Vec<u8>, idx: usize, abort_at: Option<usize>) {
         self.streams.push((sid, body, 0, self.init_win, idx, abort_at));
@@ -820,7 +829,7 @@ impl H2Tx {
             }
             self.k += 1;
             let with_trailers = self.trailers.contains(&sid);
-            let end = len == left && abort_at.is_none();
+            let end = len == left && abort_at.is_none() && !self.sep_end;
             let mut f = data_frame(sid, &body[pos..pos + len], self.pad, end && !with_trailers);
             if end && with_trailers {
                 f.extend(frame(T_HEADERS, 0x5, sid, H2_TRAILERS));
@@ -1092,6 +1101,7 @@ fn h2_backend_conn(tcp: TcpStream, cur: Current, win: u32) {
                             Some((sh, idx)) => {
                                 if tx.is_none() {
                                     let mut t = H2Tx::new(sh.scn.chunk, sh.scn.pad);
+                                    t.sep_end = sh.scn.sep_end;
                                     for s in early_settings.drain(..) {
                                         t.on_settings(&s);
                                     }
@@ -1449,10 +1459,12 @@ fn h2_client(front: SocketAddr, sh: Arc<Shared>) {
     first.extend(Credit::upfront((0..scn.n).map(|i| scn.resp_len(i)).sum()));
     c.queue(&first);
     let mut tx = H2Tx::new(scn.chunk, scn.pad);
+    tx.sep_end = scn.sep_end;
     let mut dec = loona_hpack::Decoder::new();
     let mut enc = loona_hpack::Encoder::new();
     let mut opened = false;
     let mut next_to_open = 0usize;
+    let mut mix_phase = 0u8;
     let mut got_settings = false;
     // sid -> (idx, received, flow-controlled bytes not yet returned)
     let mut rx: HashMap<u32, (usize, usize)> = HashMap::new();
@@ -1567,16 +1579,38 @@ fn h2_client(front: SocketAddr, sh: Arc<Shared>) {
             }
             k
         };
-        if got_settings && next_to_open < allowed {
-            let range = next_to_open..allowed;
+        // mix mode: the downloads (even exchanges) first; the uploads (odd exchanges) once every download's sender
+        // is persistently stuck or done, i.e. once sozu's write toward this client has stopped on a full socket
+        let to_open: Vec<usize> = if !got_settings {
+            vec![]
+        } else if scn.mix {
+            let evens_stuck = (0..scn.n).filter(|i| i % 2 == 0).all(|i| sh.with(i, |x| x.resp_sender_blocked_or_done || x.resp_end != End::Open).unwrap_or(true));
+            if mix_phase == 0 {
+                mix_phase = 1;
+                (0..scn.n).filter(|i| i % 2 == 0).collect()
+            } else if mix_phase == 1 && (evens_stuck || sh.expired()) {
+                mix_phase = 2;
+                next_to_open = scn.n;
+                (0..scn.n).filter(|i| i % 2 == 1).collect()
+            } else {
+                vec![]
+            }
+        } else if next_to_open < allowed {
+            let r = next_to_open..allowed;
             next_to_open = allowed;
+            r.collect()
+        } else {
+            vec![]
+        };
+        if !to_open.is_empty() {
             opened = true;
-            for i in range {
+            for i in to_open {
                 let sid = 1 + 2 * i as u32;
                 let body = pattern(scn.seed, i, 0, scn.req_len(i));
                 let mut block = vec![];
-                let post = scn.req_fr != "none" && scn.req_fr != "head";
-                for (k, v) in [(&b":method"[..], scn.method().as_bytes()), (b":scheme", b"https"), (b":path", scn.path(i).as_bytes()), (b":authority", b"localhost")] {
+                let post = scn.has_req_body(i);
+                let method: &[u8] = if post { b"POST" } else if scn.req_fr == "head" { b"HEAD" } else { b"GET" };
+                for (k, v) in [(&b":method"[..], method), (b":scheme", b"https"), (b":path", scn.path(i).as_bytes()), (b":authority", b"localhost")] {
                     let _ = enc.encode_header_into((k, v), &mut block);
                 }
                 c.queue(&frame(T_HEADERS, if post { 0x4 } else { 0x5 }, sid, &block));
@@ -1642,8 +1676,13 @@ fn h2_client(front: SocketAddr, sh: Arc<Shared>) {
             return;
         }
         let mut want_read = true;
-        if !paused_once && total_got >= scn.cpause && opened && tx.idle() && !c.pending() {
-            let all = (0..scn.n).all(|i| sh.with(i, |x| x.resp_sender_blocked_or_done || x.resp_end != End::Open).unwrap_or(true));
+        // (mix mode: the pause starts while the client's own uploads — which fit the initial windows — are still
+        // going out, and lasts until they are done and the response senders are stuck or done)
+        if !paused_once && total_got >= scn.cpause && opened && (scn.mix || (tx.idle() && !c.pending())) {
+            let all = (0..scn.n).all(|i| sh.with(i, |x| x.resp_sender_blocked_or_done || x.resp_end != End::Open).unwrap_or(true))
+                && tx.idle()
+                && !c.pending()
+                && (!scn.mix || mix_phase == 2);
             if all {
                 paused_once = true;
             } else {
@@ -1800,6 +1839,7 @@ fn parse_scn(a: &[Tok], nonce: u64) -> Option<Scn> {
         resp_size: n(7), step: n(8), chunk: n(9).max(1), pad: n(10), cfrag: n(11), cpause: n(12), bfrag: n(13), bpause: n(14),
         sockbuf: n(15), win: n(16) as u32, abort: n(17) as u8, seed: n(18) as u64, nonce,
         stagger: a.len() > 19 && n(19) == 1, pipeline: a.len() > 19 && n(19) == 2 && s(0) == "h1", bset_delay_ms: if a.len() > 20 { n(20) as u64 } else { 0 },
+        sep_end: a.len() > 21 && n(21) != 0, mix: a.len() > 22 && n(22) != 0,
     })
 }
 
